@@ -57,3 +57,5 @@ pub mod c11;
 // data updating (C08)
 // ---------------------------------------------------------------------------
 pub mod c08;
+// cone properties C13 / C15
+pub mod c1315;
